@@ -32,9 +32,9 @@ fn slice(tier: Tier) -> Vec<(String, PProblem)> {
         }
         let per = match (name, tier) {
             ("core", Tier::Quick) => 12,
-            ("core", _) => 40,
+            ("core", _) => 400,
             (_, Tier::Quick) => 4,
-            _ => 8,
+            _ => 80,
         };
         let candidates: Vec<PProblem> = problems.into_iter().filter(|p| p.jobs.len() >= 3).collect();
         let step = (candidates.len() / per.max(1)).max(1);
